@@ -282,7 +282,7 @@ theorem enumValues_prefix (pfx : Str) (opts : List Str) (o : Str) (h : opts ≠ 
   | nil => exact absurd rfl h
   | cons first rest =>
     simp only [enumValues, List.cons_append]
-    by_cases hs : hasSuffix b!"UNSPECIFIED" first = true
+    by_cases hs : isExplicitUnspecified pfx first = true
     · simp only [hs, if_true]
       exact ⟨(enumFull pfx o, rest.length + 1), by simp [zipIdx_append_one]⟩
     · simp only [hs]
@@ -293,10 +293,10 @@ theorem enumValues_prefix (pfx : Str) (opts : List Str) (o : Str) (h : opts ≠ 
 /-- on an empty option list the only value is the implicit zero -/
 theorem enumValues_nil (pfx : Str) : enumValues pfx [] = [(pfx ++ b!"UNSPECIFIED", 0)] := rfl
 
-/-- enum numbering without an explicit leading `…UNSPECIFIED`: implicit
+/-- enum numbering without an explicit leading zero: implicit
 `<PREFIX>UNSPECIFIED = 0`, then option `k` ↦ `k + 1` -/
 theorem enumValues_implicit (pfx : Str) (opts : List Str)
-    (h : ∀ first rest, opts = first :: rest → hasSuffix b!"UNSPECIFIED" first = false) :
+    (h : ∀ first rest, opts = first :: rest → isExplicitUnspecified pfx first = false) :
     enumValues pfx opts =
       (pfx ++ b!"UNSPECIFIED", 0) :: opts.zipIdx.map fun (n, i) => (enumFull pfx n, i + 1) := by
   cases opts with
@@ -305,10 +305,49 @@ theorem enumValues_implicit (pfx : Str) (opts : List Str)
 
 /-- …and with one: that option is value 0, the others follow from 1 -/
 theorem enumValues_explicit (pfx : Str) (first : Str) (rest : List Str)
-    (h : hasSuffix b!"UNSPECIFIED" first = true) :
+    (h : isExplicitUnspecified pfx first = true) :
     enumValues pfx (first :: rest) =
       (enumFull pfx first, 0) :: rest.zipIdx.map fun (n, i) => (enumFull pfx n, i + 1) := by
   simp [enumValues, h]
+
+/-- the explicit zero is emitted under the name of the implicit one -/
+theorem enumFull_explicit (pfx name : Str) (h : isExplicitUnspecified pfx name = true) :
+    enumFull pfx name = pfx ++ b!"UNSPECIFIED" := by
+  unfold isExplicitUnspecified trimPrefix at h
+  unfold enumFull
+  by_cases hp : hasPrefix pfx name = true
+  · simp only [hp, if_true, decide_eq_true_eq] at h ⊢
+    have hpre : pfx <+: name := by simpa [hasPrefix] using hp
+    obtain ⟨t, ht⟩ := hpre
+    subst ht
+    simp only [List.drop_left] at h
+    rw [h]
+  · simp only [hp, Bool.false_eq_true, if_false, decide_eq_true_eq] at h ⊢
+    rw [h]
+
+/-- value 0 is always `<PREFIX>UNSPECIFIED`, whatever the options -/
+theorem enumValues_head (pfx : Str) (opts : List Str) :
+    ∃ tl, enumValues pfx opts = (pfx ++ b!"UNSPECIFIED", 0) :: tl := by
+  cases opts with
+  | nil => exact ⟨[], rfl⟩
+  | cons first rest =>
+    simp only [enumValues]
+    by_cases hs : isExplicitUnspecified pfx first = true
+    · simp only [hs, if_true, enumFull_explicit pfx first hs]; exact ⟨_, rfl⟩
+    · simp only [hs]; exact ⟨_, rfl⟩
+
+/-- appending an option to ANY option list keeps every existing value -/
+theorem enumValues_prefix_all (pfx : Str) (opts : List Str) (o : Str) :
+    enumValues pfx opts <+: enumValues pfx (opts ++ [o]) := by
+  cases opts with
+  | nil =>
+    obtain ⟨tl, htl⟩ := enumValues_head pfx [o]
+    rw [List.nil_append, htl, enumValues_nil]
+    exact ⟨tl, rfl⟩
+  | cons first rest =>
+    obtain ⟨v, hv⟩ := enumValues_prefix pfx (first :: rest) o (by simp)
+    rw [hv]
+    exact List.prefix_append _ _
 
 theorem convEnum_name (e : EnumDecl) : (convEnum e).name = e.name := rfl
 
